@@ -28,7 +28,7 @@ CLAIMED = {
    note='reflexivity/symmetry inherited from the approx contract on floats; inherent methods named like an approx method (they win method-call syntax) are decided by the same table', ref='4/C19'),
  'C02': dict(tech='integer zone tables + rational-function normal form + counting-fold refinement + exactness (E9) of domain guards + sign certificates',
    text='Proof on the type-checked program: (i) the domain checks of ci_wilson / ci_z_normal are compared with the documented regions on every cell of the arrangement of their integer guards (finite abstract domain, complete); (ii) on the accepted region the Ok bounds are shown equal, as rational functions with sqrt and quantile atoms, to the Wilson centre -/+ span (independently: both vanish in the score polynomial) resp. the Wald formula, with the kind table; (iii) every front-end (ci, Stats::ci, ci_true, ci_if, FromIterator, extend, extend_if, add_success/failure) is a counting fold with the predicate polarity in the step obligation, and the ratio form passes round(r*n); (iv) is_significant equals its documented thresholds on every zone cell.',
-   note='floats as reals for the formula; bounds within [0,1] decided over the reals by sign certificates; domain guards additionally required to be computed exactly (E9; KNOWN FINDING: the Wald failure count is compared as a difference of converted counts, inexact above 2^53) and integer operations on the accepted path to be overflow-free on the domain; n >= 1 (n = 0 under C11); level in (0,1)', ref='4/C02'),
+   note='floats as reals for the formula; bounds within [0,1] decided over the reals by sign certificates; domain guards additionally required to be computed exactly (E9; arithmetic on converted counts is reported as inexact above 2^53, repaired: d3c7d88) and integer operations on the accepted path to be overflow-free on the domain; n >= 1 (n = 0 under C11); level in (0,1)', ref='4/C02'),
  'C03': dict(tech='modular MIR summaries (callee contracts as stubs) + region-wise sign-certificate pruning + data-flow events',
    text='Per region of the documented domain every feasible path of Stats::ci / Stats::index / ci_sorted_unchecked has the documented outcome (guards, Wilson request for round(q*n), rank = min(floor(p*n), n-1) with the cap present, kind table, errors propagated unchanged, no panic for q outside (0,1)); ci / ci_max_size hand on exactly sort_by(collect(copied(data)), ascending comparator) (comparator decided on the three orderings), so the result depends on the data only through its sorted arrangement; ci_indices is Stats::new(n).ci; the running Stats has the empty default and + / += add the populations.',
    note='contracts used as stubs: ci_wilson (C02), slice::sort_by; "ranks bracket round(q*n) within one position" decided by composition of the rank map with the sign certificate that the Wilson bounds contain k/n (z >= 0)', ref='4/C03'),
@@ -37,7 +37,7 @@ CLAIMED = {
    note='floats as reals; n >= 2 per sample; variances >= 0 and not both 0', ref='4/C04'),
  'C05': dict(tech='region-wise path summaries with the wrapped Arithmetic::ci_mean as a proved stub + sibling normal-form identities',
    text='append rejects x <= 0 with NonPositiveValue(x) and provably writes nothing on that path, otherwise accumulates ln x resp. 1/x; Geometric::ci_mean is exp of the wrapped bounds with the kind kept; Harmonic::ci_mean asks the wrapped state for the flipped confidence and returns (1/high, 1/low) with the kind of the request; sample_mean and sample_sem are the documented transforms of the wrapped state\'s own statistics.',
-   note='AM-GM ordering of the three means not decided (can fail by an ulp); harmonic interval decided on the statement\'s positivity proviso, and outside it no interval may be returned (KNOWN FINDING: one-sided requests do return one); statistics additionally bounded in scaling degree (no spurious overflow of an intermediate)', ref='4/C05'),
+   note='AM-GM ordering of the three means not decided (can fail by an ulp); harmonic interval decided on the statement\'s positivity proviso, and outside it no interval may be returned (repaired: bdf2998); statistics additionally bounded in scaling degree (no spurious overflow of an intermediate)', ref='4/C05'),
  'C06': dict(tech='structural normal-form check of every critical-value use site',
    text='Necessary structural conditions only: every critical value reaching a bound of a mean / comparison / proportion interval is inverse_cdf of StudentsT(0,1,nu) with nu the term n-1 or the documented effective dof (Normal(0,1) above the constant threshold and for proportions) at q = (1+L)/2 | L, and it enters the bounds only as centre -/+ c*se (affine, opposite signs, no abs/clamp).',
    note='NOT decided: that statrs inverse_cdf inverts its CDF to the stated accuracy (numerical property of an external algorithm) - trusted contract; a dynamic audit (DESIGN 26) shows that statrs 0.18 violates it for isolated (dof, level) pairs between dof 13 612 and 99 999', ref='4/C06'),
@@ -52,7 +52,7 @@ CLAIMED = {
    note='monotonicity of the external quantile functions in the level is a contract (C06); Wilson nesting in z and containment of k/n decided by sign certificates; quantile-rank containment decided under C03', ref='4/C10'),
  'C11': dict(tech='IEEE class/range abstract interpretation of every path condition of every entry point',
    text='For each of the 54 entry points, in dev-profile MIR with nothing assumed about inputs: every panic edge (overflow/bounds asserts, unwrap, panic!/assert!, external preconditions) is proved unreachable by the class/range domain or is in the documented table; every float bound of every Ok interval has an abstract value excluding NaN; the state-based producers return TooFewSamples for n < 2 and InvalidInputData for non-finite statistics.',
-   note='levels in [0.001, 0.9999]; statrs inverse_cdf finite on (0,1); quantile arguments by IEEE class incl. NaN (KNOWN FINDING: q = NaN yields TooFewSuccesses instead of InvalidQuantile in ci_indices / Stats::ci); two-sided results only through the checked constructor or a function proven to keep low <= high (who-may-construct rule, decided here too); panics inside generic element operators not visible', ref='4/C11'),
+   note='levels in [0.001, 0.9999]; statrs inverse_cdf finite on (0,1); quantile arguments by IEEE class incl. NaN (repaired: dc81ae8); two-sided results only through the checked constructor or a function proven to keep low <= high (who-may-construct rule, decided here too); panics inside generic element operators not visible', ref='4/C11'),
  'C16': dict(tech='substitution identities (scaling, shift, negation) on the code terms by normal form',
    text='For the arithmetic, paired and unpaired producers, on both distribution branches and all kinds: b(t*x) = t*b(x), b(x+a) = b(x)+a (difference invariant for unpaired), b(-x) = -(opposite bound of the mirrored kind), as identities of rational functions with sqrt atoms; exact scaling by powers of two follows by the stated IEEE meta-theorem.',
    note='size of rounding differences for shift / reorder not decided; geometric / harmonic by composition with C05', ref='4/C16'),
